@@ -712,6 +712,13 @@ func reviseSeverity(err error) error {
 		return nil
 	}
 	if e, ok := err.(maybeTaskFatalErr); ok {
+		// An application error marked temporary is retried by the evaluator,
+		// which bounds the number of attempts. Returned as temporary, it would
+		// instead be retried without bound by the RPC client (RetryCall).
+		if e := errors.Recover(e.error); e.Temporary() {
+			e.Severity = errors.Unknown
+			return e
+		}
 		return e.error
 	}
 	if e, ok := err.(*errors.Error); ok && e != nil && e.Severity == errors.Fatal {
